@@ -261,3 +261,60 @@ func (c *Ctx) modulePackages() []*packages.Package {
 	sort.Slice(out, func(i, j int) bool { return out[i].PkgPath < out[j].PkgPath })
 	return out
 }
+
+// srcAt renders the source construct whose operator / bracket / paren sits at pos
+// (a BinaryExpr, IndexExpr, SliceExpr, CallExpr, op-assignment or ++/--), or "" if none.
+func (c *Ctx) srcAt(pos token.Pos) string {
+	if !pos.IsValid() {
+		return ""
+	}
+	tf := c.Fset.File(pos)
+	if tf == nil {
+		return ""
+	}
+	for _, p := range c.Pkgs {
+		for _, f := range p.Syntax {
+			if c.Fset.File(f.Pos()) != tf {
+				continue
+			}
+			out := ""
+			ast.Inspect(f, func(n ast.Node) bool {
+				if n == nil || out != "" {
+					return false
+				}
+				if pos < n.Pos() || pos > n.End() {
+					return false
+				}
+				switch x := n.(type) {
+				case *ast.BinaryExpr:
+					if x.OpPos == pos {
+						out = types.ExprString(x)
+					}
+				case *ast.IndexExpr:
+					if x.Lbrack == pos {
+						out = types.ExprString(x)
+					}
+				case *ast.SliceExpr:
+					if x.Lbrack == pos {
+						out = types.ExprString(x)
+					}
+				case *ast.CallExpr:
+					if x.Lparen == pos {
+						out = types.ExprString(x)
+					}
+				case *ast.AssignStmt:
+					if (x.TokPos == pos || x.Pos() == pos) && x.Tok != token.ASSIGN && x.Tok != token.DEFINE && len(x.Lhs) == 1 && len(x.Rhs) == 1 {
+						out = types.ExprString(x.Lhs[0]) + " " + x.Tok.String() + " " + types.ExprString(x.Rhs[0])
+					}
+				case *ast.IncDecStmt:
+					if x.TokPos == pos || x.Pos() == pos {
+						out = types.ExprString(x.X) + x.Tok.String()
+					}
+				}
+				return out == ""
+			})
+			return out
+		}
+	}
+	return ""
+}
